@@ -982,7 +982,7 @@ def kl_case(draw, max_n=8, max_rows=4):
         Q.append(q)
     return {"P": P[0] if one_d else P, "Q": Q[0] if one_d else Q, "one_d": one_d,
             "base": draw(st.sampled_from([None, 2, math.e, 10, 3.5])),
-            "as": draw(st.sampled_from(["list", "array", "strided"]))}
+            "as": draw(st.sampled_from(["list", "array", "strided", "matrix", "masked"]))}
 
 
 def run_kl(case):
@@ -993,7 +993,14 @@ def run_kl(case):
         big = np.full(v.shape[:-1] + (2 * v.shape[-1],), 0.123)
         big[..., ::2] = v
         return big[..., ::2]
-    conv = {"list": lambda v: v, "array": lambda v: np.array(v, dtype=float), "strided": strided}[case["as"]]
+    def as_matrix(v):
+        # what `sparse.todense()` returns (rows of a sparse transition matrix): ndarray sub-class with matrix-product `*`
+        a_ = np.array(v, dtype=float)
+        with warnings.catch_warnings():
+            warnings.simplefilter("ignore")
+            return np.matrix(a_) if a_.ndim == 2 else a_
+    conv = {"list": lambda v: v, "array": lambda v: np.array(v, dtype=float), "strided": strided, "matrix": as_matrix,
+            "masked": lambda v: np.ma.masked_array(np.array(v, dtype=float))}[case["as"]]
     a, b = conv(case["P"]), conv(case["Q"])
     kw = {} if case["base"] is None else {"base": case["base"]}
     base = 2 if case["base"] is None else case["base"]
@@ -1567,6 +1574,48 @@ def run_vec(case):
                 key=[T, nx, ny, case["dx"], case["dy"], case["seed"], case["strided"]])
 
 
+@st.composite
+def weighted_many_case(draw):
+    return {"T": draw(st.sampled_from([32767, 32768, 32769, 40000, 65537, 70000])), "F": draw(st.integers(1, 3)),
+            "S": draw(st.integers(2, 4)), "seed": draw(st.integers(0, 2 ** 31 - 1)),
+            "weights": draw(st.sampled_from(["uniform_1/T", "uniform_ones", "random"])), "dtype": draw(st.sampled_from(["int64", "int32", "int8"]))}
+
+
+def run_weighted_many(case):
+    """more observations than any internal block: the weighted estimator still sees every observation"""
+    rng = np.random.RandomState(case["seed"])            # seed drawn by Hypothesis
+    T, F, S = case["T"], case["F"], case["S"]
+    base = rng.randint(0, S, size=T)
+    # the LAST observations differ in character from the bulk (all in state S-1): dropping them changes the answer
+    tail = rng.randint(1, 5000)
+    X0 = np.stack([np.where(rng.rand(T) < 0.8, (base + f) % S, rng.randint(0, S, size=T)) for f in range(F)], axis=1)
+    X0[-tail:] = S - 1
+    w = {"uniform_1/T": np.full(T, 1.0 / T), "uniform_ones": np.ones(T), "random": rng.rand(T) + 0.1}[case["weights"]]
+    Xa = X0.astype(case["dtype"])
+    with warnings.catch_warnings():
+        warnings.simplefilter("ignore")
+        got = np.asarray(mutual_info.weighted_mi(Xa, w if case["weights"] != "uniform_ones" else w.tolist(),
+                                                 n_feature_states=[S] * F, normalize=False), dtype=float)
+    # reference: weighted joint distribution by exact accumulation (np.add.at in float64 on sorted cells)
+    wn = w / w.sum()
+    want = np.zeros((F, F))
+    for a_ in range(F):
+        for b_ in range(F):
+            P = np.zeros((S, S))
+            np.add.at(P, (X0[:, a_], X0[:, b_]), wn)
+            pa, pb = P.sum(axis=1), P.sum(axis=0)
+            nz = P > 0
+            want[a_, b_] = float((P[nz] * np.log(P[nz] / (pa[:, None] * pb[None, :])[nz])).sum())
+    require(got.shape == want.shape and close(got, want, 1e-9), "weighted_mi on tens of thousands of observations differs from "
+            "the weighted estimator over ALL observations", T=T, got=got.tolist(), want=want.tolist())
+    if case["weights"].startswith("uniform"):
+        plain = ref_mi(ref_counts(X0, X0, S, S))
+        require(close(got, plain, 1e-9), "uniform weights: weighted_mi differs from the count-based MI", T=T,
+                got=got.tolist(), want=plain.tolist())
+    return Info(T > 32768 and T % 32768 != 0, ["wmany_T=%d" % T, "wmany_weights=" + case["weights"]],
+                key=[T, F, S, case["seed"], case["weights"], case["dtype"]])
+
+
 CLAUSES = [
     Clause("counts_exact", pair_case(), run_counts, quick=720, thorough=9000, exhaustive=exhaustive_counts,
            doc="joint-count tables hold the exact number of frames, for every dtype, layout, thread count"),
@@ -1602,6 +1651,8 @@ CLAUSES = [
     Clause("weighted_general", weighted_case(kinds=("integer", "zeros", "random", "random", "uniform_c")),
            run_weighted_general, quick=280, thorough=4000,
            doc="all weight vectors: weighted estimator equals the weighted reference / repeated frames"),
+    Clause("weighted_many_observations", weighted_many_case(), run_weighted_many, quick=16, thorough=200,
+           doc="32767..70000 observations: weighted_mi == weighted estimator over all observations (== count MI if uniform)"),
     Clause("cc_normalization", cc_case(), run_cc, quick=500, thorough=8000,
            doc="channel-capacity normalisation divides entry (i, j) by log(min(n_x[i], n_y[j]))"),
     Clause("cc_normalization_mi_matrix", cc_e2e_case(), run_cc_e2e, quick=280, thorough=4000,
